@@ -2,8 +2,8 @@
 """Copies confirmed seeded changes from /tmp/r3/<id>/out/<m> (written by the independent sub-agents) into
 /verif/seeded/<id>-<m>/ with the confirmation record of tools/seedverify.sh."""
 import json, os, shutil, sys, re
-ms = sys.argv[1:] or ["m5", "m6"]
-ROOT = "/tmp/r3"
+ms = sys.argv[1:] or ["m7", "m8"]
+ROOT = os.environ.get("SEED_ROOT", "/tmp/r5")
 for d in sorted(os.listdir(ROOT)):
     if not os.path.isdir(f"{ROOT}/{d}/out"): continue
     pid = d
@@ -27,7 +27,7 @@ for d in sorted(os.listdir(ROOT)):
             "what_it_breaks": meta.get("what_it_breaks", ""), "needs_to_manifest": meta.get("needs_to_manifest", ""),
             "files_changed": meta.get("files_changed") or re.findall(r"^\+\+\+ b/(.*)$", patch, re.M),
             "demo_pkg_dir": meta.get("demo_pkg_dir"), "demo_run": meta.get("demo_run"),
-            "origin": "written by an independent sub-agent (third round) that saw only the property record, a scratch worktree of /repo without the contract files, and the list of files/functions changed by the earlier rounds",
+            "origin": "written by an independent sub-agent (" + os.environ.get("SEED_ROUND", "fourth") + " round) that saw only the property record, a scratch worktree of /repo without the contract files, and the list of files/functions changed by the earlier rounds",
             "confirmed_by_me": {"how": "tools/seedverify.sh in a scratch worktree of /repo HEAD: git apply; go build ./...; go test -vet=off -count=1 ./...; copy demo; run demo (must fail); git apply -R; run demo (must pass)",
                                 "applies": res["applies"], "builds": res["builds"], "existing_tests": res["existing_tests"],
                                 "demo_with_mutant": res["demo_with_mutant"], "demo_without": res["demo_without"]},
